@@ -41,7 +41,7 @@ TIERS = {
 PROBES = ["pending_then_resolved", "premature_use", "other_module_used_first", "cyclic_program", "same_target_twice", "future_annotations",
           "whole_quoted", "local_class", "schema_generated", "constrained_ref", "self_spelling", "acyclic_direct_twin",
           "local_name_collides_with_module", "same_target_three_times", "function_partially_resolvable", "generator_types_by_reference",
-          "subclass_used", "property_output_by_reference", "local_sibling_reference", "class_nested_in_class_body", "first_use_is_an_assignment"]
+          "subclass_used", "property_output_by_reference", "local_sibling_reference", "class_nested_in_class_body", "first_use_is_an_assignment", "subclass_in_other_module"]
 
 CONTAINERS = ["opt", "list", "dict", "union", "req"]
 
@@ -163,9 +163,17 @@ def gen_source(prog, S, direct=False):
             f"    return {{'v': 100 + n}}\n")
 
 
+def _sub_other(prog):
+    # (an inherited Optional[Self] means the subclass itself once it is re-declared there: not the same declaration)
+    return bool(prog["sub"].get("other_module")) and prog["classes"][prog["sub"]["of"]]["refs"][0]["spell"] != "self"
+
+
 def sub_source(prog, S):
     c = prog["sub"]["of"]
     src = f"class D{c}{S}(C{c}{S}):\n    extra: int = 0\n"
+    if _sub_other(prog):
+        # the subclass lives in another module and only gives an inherited reference field its default again
+        src += "    r0 = None\n"
     if prog["sub"].get("deep"):
         # a third level whose parent declares nothing that is pending itself
         src += f"class E{c}{S}(D{c}{S}):\n    more: int = 0\n"
@@ -524,6 +532,9 @@ def generate(rng, tier):
         prog["genfn"] = {"to": rng.choice(no_req), "form": rng.choice(["iter", "gen"])}
     if rng.random() < 0.3:
         prog["sub"] = {"of": rng.randrange(n), "deep": rng.random() < 0.5}
+        c0 = classes[prog["sub"]["of"]]
+        if c0["refs"] and c0["refs"][0]["cont"] == "opt" and not future and rng.random() < 0.5:
+            prog["sub"]["other_module"] = True
     if rng.random() < 0.25 and no_req:
         prog["fnr"] = {"to": rng.choice(no_req)}
     # break required cycles (a required cycle has no finite valid input; keep at most opt/list/... on back edges)
@@ -891,7 +902,15 @@ def execute(plan):
         elif k in ("define_fn2", "define_gen", "define_sub", "define_fnr"):
             src = {"define_fn2": func2_source, "define_gen": gen_source, "define_fnr": fnr_source}.get(k)
             src = src(prog, S) if src else sub_source(prog, S)
-            if prog.get("future"):
+            if k == "define_sub" and _sub_other(prog):
+                # declared in a module of its own that imports the base class (and none of the names the base refers to)
+                c_ = prog["sub"]["of"]
+                sm = kernel.make_module("verif_c17_submod_" + S.strip("_"), HEADER + f"from {mod.__name__} import C{c_}{S}\n" + src)
+                for nm in (f"D{c_}{S}", f"E{c_}{S}"):
+                    if nm in sm.__dict__:
+                        mod.__dict__[nm] = sm.__dict__[nm]
+                res.stats["probe:subclass_in_other_module"] += 1
+            elif prog.get("future"):
                 exec(compile(future_hdr + src, f"<{mod.__name__}>", "exec"), mod.__dict__)
             else:
                 kernel.exec_into(mod, src)
